@@ -400,3 +400,61 @@ def st_big_circuit(be, kinds=None):
 
 FACETS.append(Facet('np/large-registers', f_big_circuit, strategy=lambda t: st_big_circuit('np'), examples={'quick': 400, 'thorough': 20000}, shards={'quick': 2, 'thorough': 8}))
 FACETS.append(Facet('torch/large-registers', f_big_circuit, strategy=lambda t: st_big_circuit('torch', ['rot']), examples={'quick': 150, 'thorough': 6000}, shards={'quick': 1, 'thorough': 4}, backend='torch'))
+
+
+# ---- a rotation gate whose generator is replaced after it has been used / compiled (set_generator on the gate itself or on a copy of it)
+def f_regenerate(case):
+    """g = gate with generator G1, used and possibly compiled; then g.set_generator(G2) (or a copy of g gets G2); the gate, and circuits holding it in
+    every compile configuration, must act as the rotation by the *current* generator."""
+    be, N = case['be'], case['N']
+    Bk = B.backend(be)
+    cm = Bk.mods()['c']
+    q = sorted(case['qubits'])
+    g = cm.CliffordGate(*q)
+    L, K = ref.parse_list(case['ops'])
+    cur = None
+    for i, stp in enumerate(case['steps']):
+        t = stp['t']
+        if t == 'set':
+            gl, gk = ref.parse(stp['gen'])
+            g.set_generator(Bk.pauli(gl, gk))
+            cur = ref.rotation_clifford(gl, gk).embed(q, N)
+        elif t == 'copy' and cur is not None:
+            g = g.copy()
+        elif t == 'compile' and cur is not None:
+            g.compile()
+        elif cur is not None:
+            if t == 'gate':
+                holder = g
+            else:
+                holder = cm.identity_circuit(N) if be == 'torch' else (cm.CliffordCircuit(N) if stp.get('cls', 0) == 0 else cm.Circuit(N))
+                holder.take(g)
+                if stp['comp'] == 'layers':
+                    for layer in holder.layers_forward():
+                        layer.compile(N)
+                elif stp['comp'] == 'circuit':
+                    holder.compile()
+            for d in stp['calls']:
+                obj = Bk.plist(L, K)
+                (holder.forward if d == 'f' else holder.backward)(obj)
+                want = (cur if d == 'f' else cur.inverse()).apply(L, K)
+                C.expect_list(Bk.read_list(obj), want, 'step %d: gate with its generator set %d times, run %s through %s%s' % (
+                    i, sum(1 for x in case['steps'][:i + 1] if x['t'] == 'set'), 'forward' if d == 'f' else 'backward', t, '/' + stp.get('comp', '') if t != 'gate' else ''), 'regenerated-gate')
+    nset = [i for i, x in enumerate(case['steps']) if x['t'] == 'set']
+    nt = len(nset) >= 2 and any(x['t'] in ('compile', 'use') and x.get('comp', 'circuit') != 'none' for x in case['steps'][nset[0]:nset[-1]])
+    return {'nt': nt, 'labels': ['N=%d' % N, 'sets=%d' % min(len(nset), 4)]}
+
+
+def st_regenerate(be, hiN):
+    def inner(t):
+        N, n = t
+        use = st.fixed_dictionaries({'t': st.sampled_from(['gate', 'use', 'use']), 'comp': st.sampled_from(['none', 'layers', 'circuit']), 'cls': st.integers(0, 1), 'calls': st.sampled_from(['f', 'fb', 'bf'])})
+        step = st.one_of(st.fixed_dictionaries({'t': st.just('set'), 'gen': gen.st_herm(n, nonidentity=True)}), use, use, st.just({'t': 'compile'}), st.just({'t': 'copy'}))
+        first = st.fixed_dictionaries({'t': st.just('set'), 'gen': gen.st_herm(n, nonidentity=True)})
+        return st.fixed_dictionaries({'be': st.just(be), 'N': st.just(N), 'qubits': gen.st_subset(N, n), 'ops': gen.st_pauli_list(N, 1, 5),
+                                      'steps': st.tuples(first, st.lists(step, min_size=1, max_size=8)).map(lambda x: [x[0]] + x[1])})
+    return st.integers(1, hiN).flatmap(lambda N: st.integers(1, min(N, 3)).map(lambda n: (N, n))).flatmap(inner)
+
+
+FACETS.append(Facet('np/regenerated-gates', f_regenerate, strategy=lambda t: st_regenerate('np', 4), examples={'quick': 600, 'thorough': 25000}, shards={'quick': 2, 'thorough': 8}))
+FACETS.append(Facet('torch/regenerated-gates', f_regenerate, strategy=lambda t: st_regenerate('torch', 3), examples={'quick': 150, 'thorough': 6000}, shards={'quick': 1, 'thorough': 4}, backend='torch'))
